@@ -107,7 +107,9 @@ class Encoding:
         if c["op"] == "substr_eq":
             return z3.SubString(col, 0, z3.Length(par(c["len_param"]))) == par(c["param"])
         if c["op"] == "instr1":
-            return z3.IndexOf(col, par(c["param"]), 0) == 0
+            # instr(col, p) == 1: the FIRST occurrence of p in col is at position 1, i.e. col starts with p (instr(x, '') is 1,
+            # and '' is a prefix of everything).  PrefixOf is the same predicate and far easier for the solvers than IndexOf
+            return z3.PrefixOf(par(c["param"]), col)
         raise AssertionError(c)
 
     def same_on(self, a, b, cols):
